@@ -218,6 +218,13 @@ def generate(tier, rng, around=None):
             for ri in range(len(RESUMES) if mk else 1):
                 for end in ENDS:
                     cases.append(build([(mk, ai, ri, 0)], end, None))
+    # the same chains with a pause / play pair around the resume (transparent requests: the reference is unchanged)
+    for ai in range(len(ARGS)):
+        for ri, order in itertools.product(range(len(RESUMES)), (('pause', 'resume', 'play'), ('resume', 'pause', 'play'), ('pause', 'play', 'resume'))):
+            c = build([(1, ai, ri, 0)], ENDS[0], None)
+            res = [e for e in c['events'] if e[0] == 'ctl'][0]
+            ev = [['drain', 30]] + [res if o == 'resume' else ['ctl', [o] + ([None] if o == 'pause' else [])] for o in order] + [['drain', 30]]
+            cases.append(dict(c, events=ev))
     n = {'quick': 350, 'thorough': 4000, 'widen': 1500}[tier]
     for _ in range(n):
         k = rng.choice([2, 2, 3, 3, 4])
